@@ -109,6 +109,22 @@ fn set_will_props(a: &mut AP, ps: Vec<Prop>) {
     }
 }
 
+/// Topic Filter contents beyond plain ASCII: shared-subscription forms (well-formed, and the ill-formed
+/// ones that are ordinary filters in v3.1.1), multi-byte UTF-8 in every position
+pub fn special_filters() -> Vec<&'static str> {
+    vec!["$share/g/t", "$share/g/#", "$share/g/+/x", "$share/+/t", "$share/#", "$share/g", "$share//x", "$share/g/", "$share/\u{e9}/t", "$share/g\u{20ac}/s/#", "$share/\u{e9}a+/t", "$share/\u{1F600}/#", "\u{e9}", "+/\u{65e5}\u{672c}/#", "\u{1F600}/+", "$SYS/#", "/", "//", "a/"]
+}
+/// Topic Name / plain string contents with multi-byte UTF-8
+pub fn special_names() -> Vec<&'static str> {
+    vec!["\u{e9}", "a/\u{65e5}\u{672c}", "\u{1F600}", "$share/g/t", "/", "a//b", "\u{7f}\u{80}"]
+}
+
+/// a User Property that pads a property block to exactly `n` bytes (`extra` bytes are taken by others)
+fn pad_user(n: usize, extra: usize) -> Prop {
+    // id(1) + key len(2) + "k"(1) + value len(2) + value
+    Prop { id: 0x26, val: PVal::Pair(b"k".to_vec(), vec![b'v'; n - extra - 6]) }
+}
+
 fn pid_field(max: u32) -> Vec<Dev> {
     [2u32, 255, 256, max].iter().map(|&v| dev!(format!("id={v}"), move |a: &mut AP| match a {
         AP::Publish { pid, qos, .. } => {
@@ -145,8 +161,16 @@ pub fn kinds(ver: Ver, w: usize, level: u8) -> Vec<Kind> {
             }
             wills.push(dev!(format!("will.payload.len={l}"), move |a: &mut AP| if let AP::Connect { will, .. } = a { *will = Some(Will { topic: b"w".to_vec(), payload: s(l), qos: 0, retain: false, props: vec![] }) }));
         }
+        for n in special_names() {
+            wills.push(dev!(format!("will.topic={n:?}"), move |a: &mut AP| if let AP::Connect { will, .. } = a { *will = Some(Will { topic: n.as_bytes().to_vec(), payload: b"x".to_vec(), qos: 1, retain: false, props: vec![] }) }));
+        }
         fields.push(wills);
-        fields.push(lens.iter().map(|&l| dev!(format!("user.len={l}"), move |a: &mut AP| if let AP::Connect { user, .. } = a { *user = Some(s(l)) })).collect());
+        let mut users: Vec<Dev> = lens.iter().map(|&l| dev!(format!("user.len={l}"), move |a: &mut AP| if let AP::Connect { user, .. } = a { *user = Some(s(l)) })).collect();
+        for n in ["\u{e9}", "\u{1F600}x"] {
+            users.push(dev!(format!("user={n:?}"), move |a: &mut AP| if let AP::Connect { user, .. } = a { *user = Some(n.as_bytes().to_vec()) }));
+            users.push(dev!(format!("client_id={n:?}"), move |a: &mut AP| if let AP::Connect { client_id, .. } = a { *client_id = n.as_bytes().to_vec() }));
+        }
+        fields.push(users);
         fields.push(lens.iter().map(|&l| dev!(format!("password.len={l}"), move |a: &mut AP| if let AP::Connect { pass, user, .. } = a { *pass = Some(s(l)); if !v5 && user.is_none() { *user = Some(b"u".to_vec()) } })).collect());
         if v5 {
             fields.push(prop_field(Loc::Connect, level, set_props));
@@ -173,11 +197,26 @@ pub fn kinds(ver: Ver, w: usize, level: u8) -> Vec<Kind> {
         fields.push([1u8, 2].iter().map(|&q| dev!(format!("qos={q}"), move |a: &mut AP| if let AP::Publish { qos, pid, .. } = a { *qos = q; if pid.is_none() { *pid = Some(1) } })).collect());
         fields.push(vec![dev!("dup=true", |a: &mut AP| if let AP::Publish { dup, qos, pid, .. } = a { *dup = true; if *qos == 0 { *qos = 1; *pid = Some(1) } })]);
         fields.push(vec![dev!("retain=true", |a: &mut AP| if let AP::Publish { retain, .. } = a { *retain = true })]);
-        fields.push(lens.iter().filter(|l| **l > 0).map(|&l| dev!(format!("topic.len={l}"), move |a: &mut AP| if let AP::Publish { topic, .. } = a { *topic = s(l) })).collect());
+        let mut topics: Vec<Dev> = lens.iter().filter(|l| **l > 0).map(|&l| dev!(format!("topic.len={l}"), move |a: &mut AP| if let AP::Publish { topic, .. } = a { *topic = s(l) })).collect();
+        for n in special_names() {
+            topics.push(dev!(format!("topic={n:?}"), move |a: &mut AP| if let AP::Publish { topic, .. } = a { *topic = n.as_bytes().to_vec() }));
+        }
+        fields.push(topics);
         fields.push(lens.iter().map(|&l| dev!(format!("payload.len={l}"), move |a: &mut AP| if let AP::Publish { payload, .. } = a { *payload = s(l) })).collect());
         fields.push(pid_field(max));
         if v5 {
             let mut pf = prop_field(Loc::Publish, level, set_props);
+            // property blocks around the 1-byte / 2-byte Property Length boundary, with and without a Topic
+            // Alias (the rewriting helpers add / remove those 3 bytes)
+            let mut sizes: Vec<usize> = (124..=131).collect();
+            if level > 0 {
+                sizes.extend(16380..=16387);
+            }
+            for n in sizes {
+                pf.push(dev!(format!("props.size={n}"), move |a: &mut AP| if let AP::Publish { props, .. } = a { *props = vec![pad_user(n, 0)] }));
+                pf.push(dev!(format!("props.size={n}(alias)"), move |a: &mut AP| if let AP::Publish { props, .. } = a { *props = vec![Prop { id: 0x23, val: PVal::U16(7) }, pad_user(n, 3)] }));
+                pf.push(dev!(format!("props.size={n}(alias last)"), move |a: &mut AP| if let AP::Publish { props, .. } = a { *props = vec![pad_user(n, 3), Prop { id: 0x23, val: PVal::U16(7) }] }));
+            }
             pf.push(dev!("empty-topic+alias", |a: &mut AP| if let AP::Publish { topic, props, .. } = a { *topic = vec![]; *props = vec![Prop { id: 0x23, val: PVal::U16(7) }] }));
             fields.push(pf);
         }
@@ -201,7 +240,11 @@ pub fn kinds(ver: Ver, w: usize, level: u8) -> Vec<Kind> {
         let mut fields: Vec<Vec<Dev>> = vec![pid_field(max)];
         let opts: Vec<u8> = if v5 { vec![1, 2, 0x04, 0x08, 0x10, 0x20, 0x2E] } else { vec![1, 2] };
         fields.push(opts.into_iter().map(|o| dev!(format!("opts=0x{o:02x}"), move |a: &mut AP| if let AP::Subscribe { entries, .. } = a { entries[0].1 = o })).collect());
-        fields.push(lens.iter().filter(|l| **l > 0).map(|&l| dev!(format!("filter.len={l}"), move |a: &mut AP| if let AP::Subscribe { entries, .. } = a { entries[0].0 = s(l) })).collect());
+        let mut fl: Vec<Dev> = lens.iter().filter(|l| **l > 0).map(|&l| dev!(format!("filter.len={l}"), move |a: &mut AP| if let AP::Subscribe { entries, .. } = a { entries[0].0 = s(l) })).collect();
+        for n in special_filters() {
+            fl.push(dev!(format!("filter={n:?}"), move |a: &mut AP| if let AP::Subscribe { entries, .. } = a { entries[0].0 = n.as_bytes().to_vec() }));
+        }
+        fields.push(fl);
         fields.push(vec![
             dev!("entries=2", |a: &mut AP| if let AP::Subscribe { entries, .. } = a { entries.push((b"g/#".to_vec(), 1)) }),
             dev!("entries=3", |a: &mut AP| if let AP::Subscribe { entries, .. } = a { entries.push((b"g/+".to_vec(), 2)); entries.push((b"#".to_vec(), 0)) }),
@@ -228,7 +271,11 @@ pub fn kinds(ver: Ver, w: usize, level: u8) -> Vec<Kind> {
     {
         let base = AP::Unsubscribe { ver, pid: 1, props: vec![], filters: vec![b"f".to_vec()] };
         let mut fields: Vec<Vec<Dev>> = vec![pid_field(max)];
-        fields.push(lens.iter().filter(|l| **l > 0).map(|&l| dev!(format!("filter.len={l}"), move |a: &mut AP| if let AP::Unsubscribe { filters, .. } = a { filters[0] = s(l) })).collect());
+        let mut fl: Vec<Dev> = lens.iter().filter(|l| **l > 0).map(|&l| dev!(format!("filter.len={l}"), move |a: &mut AP| if let AP::Unsubscribe { filters, .. } = a { filters[0] = s(l) })).collect();
+        for n in special_filters() {
+            fl.push(dev!(format!("filter={n:?}"), move |a: &mut AP| if let AP::Unsubscribe { filters, .. } = a { filters[0] = n.as_bytes().to_vec() }));
+        }
+        fields.push(fl);
         fields.push(vec![dev!("filters=2", |a: &mut AP| if let AP::Unsubscribe { filters, .. } = a { filters.push(b"g/#".to_vec()) }), dev!("filters=3", |a: &mut AP| if let AP::Unsubscribe { filters, .. } = a { filters.push(b"g".to_vec()); filters.push(b"+".to_vec()) })]);
         if v5 {
             fields.push(prop_field(Loc::Unsubscribe, level, set_props));
